@@ -178,9 +178,14 @@ def aggregate(summaries):
             o["time"] += r["time"]
             o["solvers"].add(r["solver"] if r["status"] != "trivial" else "syntactic")
             if r["status"] == "sat":
+                def score(x):
+                    d = x.get("decisions") or []
+                    return (sum(1 for a in d if a and a[0] == "replay"), len(d))
                 if o["status"] != "failed":
                     o["status"] = "failed"
                     o["witness"] = r
+                elif score(r) < score(o["witness"]):
+                    o["witness"] = r       # prefer witnesses free of model-only choices, then short ones (better native replays)
             elif r["status"] == "unknown" and o["status"] == "discharged":
                 o["status"] = "unknown"
                 o["witness"] = r
